@@ -154,6 +154,11 @@ fn parse_inline_tag(tokens: &[Token]) -> Option<usize> {
             ..
         })
     ) {
+        // An unterminated tag (no closing brace before the end) is not an inline tag.
+        if cursor >= tokens.len() {
+            return None;
+        }
+
         cursor += 1;
     }
 
